@@ -168,6 +168,10 @@ def main(argv=None):
     tasks = [(prop, i, {"known": known_ids, "confirm": None}, caps) for i in insts]
     for k in known:
         for i in insts:
+            if k.get("confirm_keys") is not None:
+                if i["key"] in k["confirm_keys"]:
+                    tasks.append((prop, i, {"known": known_ids, "confirm": k["id"]}, caps))
+                continue
             if i["fn"] == k["fn"] and (k.get("key_contains") is None or k["key_contains"] in i["key"]):
                 tasks.append((prop, i, {"known": known_ids, "confirm": k["id"]}, caps))
     # longest first where the harness gives a weight
